@@ -11,6 +11,8 @@ A unit template (contracts/<unit>.vrs) is Verus source with directive lines:
     //@ after N <txt>   payload: inserted after the line holding the N-th occurrence of <txt>  (ghost only)
     //@ ret <name>      rewrite `-> T` into `-> (<name>: T)`              (rule R9, names the result)
     //@ rewrite <rule> <count> "<from>" => "<to>"   textual rewrite inside the item, logged (rules R1..R8)
+    //@ enumerate N [name]   rule R8: desugar `for (i, x) in E.enumerate()` (optionally naming the ghost iterator)
+    //@ itername N name      rule R12: `for x in E` -> `for x in name: E` (Verus ghost iterator name)
     //@ fields a b c    (struct) projection: emit only these fields, types copied verbatim
     //@ strip-inner-attrs   drop `#[..]` attributes inside the item (rule R3)
     //@ keep-attrs      keep the item's outer attributes (default: dropped)
@@ -258,6 +260,49 @@ def _extract_item(unit, out, repo, rel, sel, subs, trel, vacuity):
                 repls.append((p, p + len(frm), to, tl, rule, frm))
         elif kw == "fields":
             pass
+        elif kw == "itername":
+            # rule R12: `for x in E` -> `for x in <name>: E` (names Verus' ghost iterator; no executable effect)
+            if loops is None:
+                loops = rustlex.loops_in(sf, item)
+            k = int(args.split()[0])
+            gname = args.split()[1]
+            if k < 1 or k > len(loops):
+                raise AnchorLost("loop %d of %s not found" % (k, sel))
+            kw_off, body_off = loops[k - 1]
+            header = src[kw_off:body_off]
+            m = re.match(r"(for\s+.*?\s+in\s+)", header, re.S)
+            if not m:
+                raise AnchorLost("loop %d of %s is not a for loop" % (k, sel))
+            edits.append((kw_off + m.end(1), 0, gname + ": ", tl))
+            unit.rewrites.append({"rule": "R12", "item": label, "file": rel, "line": sf.line_of(kw_off),
+                                  "from": header.strip(), "to": "ghost iterator named `%s`" % gname})
+        elif kw == "enumerate":
+            # rule R8: `for (i, x) in E.enumerate() { B }` -> `let mut i: usize = 0; for x in E { B; i += 1; }`
+            if loops is None:
+                loops = rustlex.loops_in(sf, item)
+            k = int(args.split()[0])
+            if k < 1 or k > len(loops):
+                raise AnchorLost("loop %d of %s not found" % (k, sel))
+            kw_off, body_off = loops[k - 1]
+            header = src[kw_off:body_off]
+            m = re.match(r"for\s*\(\s*([A-Za-z_][A-Za-z_0-9]*)\s*,\s*([^)]+?)\s*\)\s+in\s+(.*?)\s*\.enumerate\(\)\s*$", header, re.S)
+            if not m:
+                raise AnchorLost("loop %d of %s is not of the form `for (i, x) in E.enumerate()`: %r" % (k, sel, header))
+            ivar, pat, expr = m.group(1), m.group(2), m.group(3)
+            # find the closing brace of the loop body
+            ct = sf.ct
+            bo = [j for j in range(item.tok_lo, item.tok_hi) if ct[j].start == body_off][0]
+            bc = rustlex.match_close(ct, bo)
+            body_txt = src[body_off:ct[bc].end]
+            if re.search(r"\bcontinue\b", body_txt):
+                raise AnchorLost("R8 not applicable: loop %d of %s contains `continue`" % (k, sel))
+            gname = args.split()[1] + ": " if len(args.split()) > 1 else ""
+            newh = "let mut %s: usize = 0;\n        for %s in %s%s " % (ivar, pat, gname, expr)
+            repls.append((kw_off, body_off, newh, tl, "R8", header.strip()))
+            ls = src.rfind("\n", 0, ct[bc].start) + 1
+            edits.append((ls, 5, "            %s += 1;\n" % ivar, tl))
+            unit.rewrites.append({"rule": "R8", "item": label, "file": rel, "line": sf.line_of(ct[bc].start),
+                                  "from": "}", "to": "%s += 1; }" % ivar})
         else:
             raise ValueError("%s:%d: unknown sub-directive %s" % (trel, tl, kw))
 
